@@ -792,6 +792,8 @@ def show(t, depth=0):
         return "_%d" % t[1]
     if k == "fnref":
         return "fn:" + t[1].name
+    if k == "hashof":
+        return "hashof(%s)" % ", ".join(show(a, depth + 1) for a in t[1])
     return "%s(…)" % k
 
 
